@@ -365,7 +365,7 @@ http_chunk_decode_append_data (request_st * const r, const char *mem, off_t len)
                   #else
                     buffer_clear(h);
                   #endif
-                    r->gw_dechunk->done = r->http_status;
+                    r->gw_dechunk->done = r->http_status ? r->http_status : 200;
                     break;
                 }
 
@@ -380,7 +380,7 @@ http_chunk_decode_append_data (request_st * const r, const char *mem, off_t len)
                     /* truncate excessively long trailers */
                     /* (not truncated; passed as-is if r->resp_send_chunked) */
                     if (r->resp_send_chunked) r->keep_alive = 0;
-                    r->gw_dechunk->done = r->http_status;
+                    r->gw_dechunk->done = r->http_status ? r->http_status : 200;
                     buffer_append_string_len(h, mem, mlen);
                     p = strrchr(h->ptr, '\n');
                     if (NULL != p) {
@@ -397,7 +397,7 @@ http_chunk_decode_append_data (request_st * const r, const char *mem, off_t len)
                 }
                 buffer_append_string_len(h, mem, (uint32_t)len);
                 if ((p = strstr(h->ptr, "\r\n\r\n"))) {
-                    r->gw_dechunk->done = r->http_status;
+                    r->gw_dechunk->done = r->http_status ? r->http_status : 200;
                     if (p[4] != '\0') return -1; /*(excess data)*/
                         /*buffer_truncate(h, (uint32_t)(p+4-h->ptr));*/
                 }
